@@ -84,6 +84,9 @@ func (c C19) Run(t *tape.Tape, opt core.RunOpt) (res core.Result) {
 	// the resolver keeps the Subscription object of a subscriber and hands it
 	// back when that subscriber subscribes again after it was removed
 	w.ReuseSub = t.Bool(1, 4)
+	if t.Bool(1, 4) {
+		w.ResolverReenters = 1 + t.Draw(2)
+	}
 	var ever []int
 	topics := []string{"a", "b", "c"}
 	topic := func() string {
@@ -162,7 +165,9 @@ func (c C19) Run(t *tape.Tape, opt core.RunOpt) (res core.Result) {
 			if t.Bool(1, 3) {
 				sb.FailFrom = 1 + t.Draw(3)
 				sb.Dropped = t.Bool(1, 2)
+				sb.TimeoutErr = t.Bool(1, 3)
 			}
+			sb.ByValue = t.Bool(1, 4)
 			w.AddSub(sb)
 			out := w.Subscribe(sb.ID)
 			d := fmt.Sprintf("subscribe(sub %d topic=%q sel=%s failFrom=%d dropped=%v) -> %s", sb.ID, sb.Topic, workload.SubSelections[sb.SelIndex].Sel, sb.FailFrom, sb.Dropped, out)
@@ -181,9 +186,13 @@ func (c C19) Run(t *tape.Tape, opt core.RunOpt) (res core.Result) {
 				fail("subscribe_failed", "subscription request of subscriber %d returned %s", sb.ID, out)
 				return
 			}
-			if len(env.log) != 0 {
-				fail("callout_during_subscribe", "subscribing called back into subscribers: %v", env.log)
-				return
+			for _, e := range env.log {
+				// (Probe: the harness's subscription resolver used the registry
+				// itself with an id nobody listens to)
+				if e.Kind != "Probe" {
+					fail("callout_during_subscribe", "subscribing called back into subscribers: %v", env.log)
+					return
+				}
 			}
 			live = append(live, sb.ID)
 			ever = append(ever, sb.ID)
